@@ -824,7 +824,16 @@ def place_origins(body, p, _seen=None, depth=0, extra=()):
             if fr is not None:
                 idx = pass_through_index(fr)
                 if idx is not None and idx < len(t["args"]):
-                    out |= origins(body, t["args"][idx], _seen, depth + 1, proj)
+                    pj2 = proj
+                    if pj2 and pj2[0] == "@Continue" and fr["path"].endswith("Try::branch"):
+                        # `x?`: the Continue payload of the branch is the Ok / Some payload of x
+                        ap = op_place(t["args"][idx])
+                        aty = body.local_ty(ap["l"]) if ap is not None and not ap["p"] else ""
+                        if aty.startswith("core::result::Result<"):
+                            pj2 = ("@Ok",) + tuple(pj2[1:])
+                        elif aty.startswith("core::option::Option<"):
+                            pj2 = ("@Some",) + tuple(pj2[1:])
+                    out |= origins(body, t["args"][idx], _seen, depth + 1, pj2)
                     passed = True
             if not passed and fr is not None and proj and proj[0] in ("@Some", "@Ok", "@Continue") and tail2(fr["path"]) == "FromResidual::from_residual":
                 # `?` on the failure path builds None / Err: that definition cannot be the source of a Some / Ok payload
